@@ -8,6 +8,7 @@ mod driver;
 mod prng;
 mod report;
 mod sx;
+mod tygen;
 mod wire;
 
 pub struct Ctx {
@@ -53,6 +54,7 @@ fn main() {
     std::panic::set_hook(Box::new(|_| {}));
     let rep = match sub.as_str() {
         "c12-probe" => c12::probe(&ctx),
+        "c12-corr" => c12::corr(&ctx),
         "c15-names" => c15::names(&ctx),
         other => {
             eprintln!("unknown sub-command {other}");
